@@ -227,6 +227,21 @@ where
         }
     }
 
+    /// poll the Swarm exactly once with the persistent waker (a finished connection task queues its
+    /// report; the Swarm does not get to process it), then clear the wake flag
+    pub fn poll_once(&mut self) {
+        use futures::StreamExt;
+        use std::task::{Context, Poll, Waker};
+        let waker = Waker::from(self.flag.clone());
+        let mut cx = Context::from_waker(&waker);
+        if let Poll::Ready(Some(ev)) = self.sim.swarm.poll_next_unpin(&mut cx) {
+            let mut w = self.sim.world.lock().unwrap();
+            let s = render_event(ev, &mut w);
+            w.push(s);
+        }
+        self.flag.0.store(false, std::sync::atomic::Ordering::SeqCst);
+    }
+
     /// was the persistent waker woken since the last `settle`/`clear_woken`?
     pub fn woken(&self) -> bool {
         self.flag.0.load(std::sync::atomic::Ordering::SeqCst)
@@ -244,7 +259,7 @@ where
         self.sim.world.lock().unwrap().peer(p).parse().unwrap()
     }
 
-    fn bind_mux(&mut self, st: Option<Arc<Mutex<MuxState>>>, log: &[String]) {
+    pub fn bind_mux(&mut self, st: Option<Arc<Mutex<MuxState>>>, log: &[String]) {
         if let Some(st) = st {
             for l in log {
                 let f: Vec<&str> = l.split(',').collect();
